@@ -31,9 +31,9 @@ class TimedAgent(threading.Thread):
     def __init__(self, cfg, sched, tick=TICK):
         super().__init__(daemon=True)
         self.cfg, self.sched, self.tick = cfg, sorted(sched), tick
-        self.sock = socket.socket(socket.AF_INET, socket.SOCK_DGRAM)
-        self.sock.bind(("127.0.0.1", 0))
-        self.port = self.sock.getsockname()[1]
+        from vlib import rawdrv
+        self.net = rawdrv.next_net()          # IPv4 / IPv6 loopback, default / explicit ToS and buffer sizes in rotation
+        self.sock, _, self.host, self.port = rawdrv.agent_socket(self.net)
         self.t0 = None
 
     def run(self):
@@ -62,13 +62,13 @@ def run_case(client, cfg, strays, match, tick=TICK):
     agent = TimedAgent(cfg, sched, tick)
     agent.start()
     ver = {"v1": SnmpVersion.v1, "v2c": SnmpVersion.v2c, "v3": SnmpVersion.v3}[cfg.ver]
-    kw = dict(port=agent.port, community=cfg.community, version=ver, timeout=T * tick)
+    kw = dict(port=agent.port, community=cfg.community, version=ver, timeout=T * tick, tos=agent.net[2], send_buffer=agent.net[3], recv_buffer=agent.net[4])
     if cfg.ver == "v3":
         kw.update(engine_id=cfg.engine, user=apidrv.user_of(cfg))
     result = "?"
     if client == "sync":
         from gufo.snmp.sync_client import SnmpSession
-        s = SnmpSession("127.0.0.1", **kw)
+        s = SnmpSession(agent.host, **kw)
         t0 = time.monotonic()
         try:
             s.get("1.3.6.1.2.1.1.3.0")
@@ -80,7 +80,7 @@ def run_case(client, cfg, strays, match, tick=TICK):
         from gufo.snmp.async_client import SnmpSession
 
         async def go():
-            s = SnmpSession("127.0.0.1", **kw)
+            s = SnmpSession(agent.host, **kw)
             t0 = time.monotonic()
             try:
                 await s.get("1.3.6.1.2.1.1.3.0")
